@@ -206,6 +206,63 @@ func runC06(c *fw.Ctx) {
 	if c.Want(0, "exh/done") {
 		c.Count("exhaustive_spaces_completed", 1)
 	}
+	// ---- percentages with every number of decimals from 1 to 40 ----
+	for d := 1; d <= 40; d++ {
+		for rep := 0; rep < c.N(6, 60); rep++ {
+			id := fmt.Sprintf("decimals/%d/%d", d, rep)
+			if !c.Want(45_000_000+d*100+rep, id) {
+				continue
+			}
+			r := c.Rng(id)
+			intPart := r.Intn(100)
+			frac := randDigits(r, d)
+			if rep%3 == 0 {
+				frac = strings.Repeat("0", d) // e.g. 25.000…0%
+			}
+			text := fmt.Sprintf("%d.%s%%", intPart, frac)
+			p, ok := model.ParsePercentText(text)
+			if !ok {
+				continue
+			}
+			ps := []*big.Rat{p, new(big.Rat).Sub(big.NewRat(1, 1), p)}
+			side := r.Intn(2)
+			var head gen.Allot = &gen.AllotLit{Lit: &gen.Percent{Text: text}}
+			var vars []*gen.VarDecl
+			vals := map[string]string{}
+			if rep%2 == 1 {
+				vars = []*gen.VarDecl{{Type: "portion", Name: "p"}}
+				vals["p"] = text
+				head = &gen.AllotVar{V: gen.V("p")}
+			}
+			sc := allotScript([]gen.Allot{head, &gen.AllotRemaining{}}, side, vars)
+			total := gen.SmallOrBig(r, 30)
+			if rep%4 == 2 {
+				total = new(big.Int).Exp(big.NewInt(10), big.NewInt(int64(d+2)), nil) // exact shares
+			}
+			vals["n"] = "USD " + total.String()
+			cs := mkCase(sc, vals, nil)
+			e, ok2 := run(c, cs)
+			if !ok2 {
+				if e.parse.Panicked {
+					c.Violation("panic:parse:"+e.parse.Frame, fmt.Sprintf("parsing a percentage with %d decimals panics: %s", d, e.parse.PanicVal), e.input())
+					return
+				}
+				continue
+			}
+			if !e.out.OK() {
+				c.Violation("allot-failed", fmt.Sprintf("a valid allotment (%s, %d decimals) failed: %s (%v)", text, d, e.out.Summary(), e.out.Err), e.input())
+				return
+			}
+			shares := observeShares(e, 2, side)
+			c.Count("shares_checked", 2)
+			c.Count("decimal_length_cases", 1)
+			if msg := checkShares(ps, total, shares); msg != "" {
+				c.Violation("shares", fmt.Sprintf("%s; portion %s (%d decimals) total %s shares %v", msg, text, d, total, shares), e.input())
+				return
+			}
+			c.Distinct(fmt.Sprintf("dec|%d|%d|%d", d, side, rep%4))
+		}
+	}
 	// ---- random ----
 	n := c.N(30000, 600000)
 	base := 50_000_000
